@@ -260,6 +260,7 @@ def _machine(res, holder):
             holder["f"] = Failure(
                 case, f"after {len(self.history)} steps from {self.start}: {msg}"
             )
+            holder.setdefault("first", holder["f"])
             raise Found(msg)
 
         @rule(i=idx, s=specs)
@@ -368,16 +369,9 @@ def shards(tier):
 
 
 def run_shard(spec, seed):
-    import hypothesis
-    from hypothesis.stateful import run_state_machine_as_test
+    from vlib.runner import run_machine
 
     res = ShardResult()
     holder = {}
-    machine = _machine(res, holder)
-    st_ = hypothesis_settings(spec["n"])
-    st_ = hypothesis.settings(st_, stateful_step_count=spec["steps"])
-    try:
-        run_state_machine_as_test(hypothesis.seed(derive_seed(seed, "m"))(machine), settings=st_)
-    except Found:
-        res.failures.append(holder["f"])
+    run_machine(_machine(res, holder), holder, res, seed, spec["n"], spec["steps"])
     return res
